@@ -15,6 +15,7 @@ import AnySyncModel.Driver.Auth
 import AnySyncModel.Driver.Handshake
 import AnySyncModel.Driver.Bytes
 import AnySyncModel.Driver.Store
+import AnySyncModel.Driver.Acl
 /-!
 `modeld <area>`: reads one operation per line on stdin, prints exactly one line per operation.
 Stateless areas expose `step : String → String`; stateful areas expose
@@ -58,4 +59,5 @@ def main (args : List String) : IO UInt32 := do
   | ["handshake"] => loopPure stdin stdout Driver.Handshake.step; return 0
   | ["bytes"] => loopPure stdin stdout Driver.Bytes.step; return 0
   | ["store"] => loopState stdin stdout Driver.Store.step Driver.Store.init; return 0
+  | ["acl"] => loopState stdin stdout Driver.Acl.step Driver.Acl.init; return 0
   | _ => IO.eprintln s!"modeld: unknown area {args}"; return 2
